@@ -170,7 +170,7 @@ class CIMNamespaceProvider(InstanceWriteProvider):
                 CIM_ERR_INVALID_PARAMETER,
                 _format(
                     "Cannot create instance of class {0!A} in namespace "
-                    "{1!A}: Value of property {2|A} in new_instance does not "
+                    "{1!A}: Value of property {2!A} in new_instance does not "
                     "match class name but is {3!A}",
                     new_instance.classname, namespace,
                     ccn_pname, new_instance[ccn_pname]))
